@@ -1028,6 +1028,25 @@ def _is_exception(node: ast.AST) -> bool:
     return False
 
 
+def _has_break(body: Sequence[ast.AST]) -> bool:
+    """Check if a loop body has a break statement that belongs to that loop."""
+    for node in body:
+        if isinstance(node, ast.Break):
+            return True
+        if isinstance(node, (ast.For, ast.AsyncFor, ast.While)):
+            # A break in the body of a nested loop belongs to that loop, but not one in its else
+            if _has_break(node.orelse):
+                return True
+            continue
+        if isinstance(node, (ast.FunctionDef, ast.AsyncFunctionDef, ast.ClassDef)):
+            continue
+        for field in ("body", "orelse", "finalbody", "handlers", "cases"):
+            if _has_break(getattr(node, field, None) or []):
+                return True
+
+    return False
+
+
 def is_blocking(node: ast.AST, parent_type: ast.AST = None) -> bool:
     """Check if a node is impossible to get past.
 
@@ -1084,6 +1103,9 @@ def is_blocking(node: ast.AST, parent_type: ast.AST = None) -> bool:
             return False
 
     if isinstance(node, (ast.For, ast.While)):
+        if _has_break(node.body):
+            # Code after the loop is reached through the break, wherever it is nested
+            return False
         for child in node.body:
             if is_blocking(child, type(node)):
                 return True
